@@ -24,6 +24,7 @@ type Mutant struct {
 		File string `json:"file"`
 		Old  string `json:"old"`
 		New  string `json:"new"`
+		Nth  int    `json:"nth,omitempty"` // replace the n-th occurrence (1-based); 0: the anchor must occur exactly once
 	} `json:"edits"`
 }
 
@@ -65,11 +66,23 @@ func runMutant(repo, verif, prop string, known []eng.KnownFinding, m Mutant) mut
 			}
 			src = b
 		}
-		if strings.Count(string(src), e.Old) != 1 {
-			res.Status, res.Detail = "skipped", fmt.Sprintf("edit does not apply to the current tree (%d occurrences of the anchor text in %s)", strings.Count(string(src), e.Old), e.File)
+		cnt := strings.Count(string(src), e.Old)
+		if (e.Nth == 0 && cnt != 1) || (e.Nth > 0 && cnt < e.Nth) {
+			res.Status, res.Detail = "skipped", fmt.Sprintf("edit does not apply to the current tree (%d occurrences of the anchor text in %s)", cnt, e.File)
 			return res
 		}
-		overlay[abs] = []byte(strings.Replace(string(src), e.Old, e.New, 1))
+		if e.Nth <= 1 {
+			overlay[abs] = []byte(strings.Replace(string(src), e.Old, e.New, 1))
+		} else {
+			str := string(src)
+			idx, from := -1, 0
+			for i := 0; i < e.Nth; i++ {
+				j := strings.Index(str[from:], e.Old)
+				idx = from + j
+				from = idx + len(e.Old)
+			}
+			overlay[abs] = []byte(str[:idx] + e.New + str[idx+len(e.Old):])
+		}
 	}
 	p, err := eng.Load(repo, overlay)
 	if err != nil {
